@@ -91,8 +91,17 @@ fn entries() -> Vec<Entry> {
         dy::<8>("CqlValue:udt"), dy::<9>("CqlValue:udt-names"), dy::<10>("CqlValue:list-of-tuples"), dy::<11>("CqlValue:map-of-lists"),
         dy::<12>("CqlValue:udt3"), dy::<13>("CqlValue:udt3-names"), dy::<14>("CqlValue:list-of-udt"), dy::<15>("CqlValue:tuple-of-udt"),
         dy::<16>("CqlValue:udt-in-udt"), dy::<17>("CqlValue:map-of-udt"), dy::<18>("CqlValue:list-of-long-tuples"), dy::<19>("CqlValue:set-of-vectors"),
+        dy::<20>("CqlValue:list-of-empty"), dy::<21>("CqlValue:map-of-empty"), dy::<22>("CqlValue:tuple-of-empty"), dy::<23>("CqlValue:udt-of-empty"),
         // type-check-only
-        tco("CqlValue", CD::Dyn, int(), |ct| <CqlValue as DeserializeValue>::type_check(ct)),
+        // CqlValue reads every column type: all its `deser` cases are pairs that pass type_check
+        Entry {
+            deser: Some(|ct, body| {
+                let bytes = body.map(Bytes::copy_from_slice);
+                let slice = bytes.as_ref().map(FrameSlice::new);
+                <CqlValue as DeserializeValue>::deserialize(ct, slice).map(|_| String::new()).map_err(|e| format!("{}", e).chars().take(120).collect())
+            }),
+            ..tco("CqlValue", CD::Dyn, int(), |ct| <CqlValue as DeserializeValue>::type_check(ct))
+        },
         tco("&str(de)", CD::Scalar("str"), text(), |ct| <&str as DeserializeValue>::type_check(ct)),
         tco("&[u8](de)", CD::Scalar("blob"), Ty::Native(NativeType::Blob), |ct| <&[u8] as DeserializeValue>::type_check(ct)),
         tco("Box<str>", CD::Scalar("str"), text(), |ct| <Box<str> as DeserializeValue>::type_check(ct)),
